@@ -143,12 +143,13 @@ func (a *Act) setupLoopInvariants(li *loopInfo, phiEntry map[*ssa.Phi]Term) {
 		case *types.Slice:
 			addCand(fmt.Sprintf("fresh-or-empty(%s)", label), func(a *Act, st *State) Term {
 				p := pv(a)
-				return Or(tr.writable(app("s_arr", p)), Eq(app("s_cap", p), "0"))
+				return Or(tr.writableAt(st, app("s_arr", p)), Eq(app("s_cap", p), "0"))
 			})
 			addCand(fmt.Sprintf("wf(%s)", label), func(a *Act, st *State) Term { return tr.wfSlice(pv(a)) })
 			addCand(fmt.Sprintf("allocated(%s)", label), func(a *Act, st *State) Term { return app("<=", app("s_arr", pv(a)), st.alloc) })
 		case *types.Map, *types.Pointer:
 			addCand(fmt.Sprintf("fresh(%s)", label), func(a *Act, st *State) Term { return tr.writable(pv(a)) })
+			addCand(fmt.Sprintf("%s != nil", label), func(a *Act, st *State) Term { return Not(Eq(pv(a), "0")) })
 		}
 	}
 	// slices / maps held in private locals that are modified in the loop
@@ -163,9 +164,12 @@ func (a *Act) setupLoopInvariants(li *loopInfo, phiEntry map[*ssa.Phi]Term) {
 		a.localCandidates(lv, lv.typ, label, func(a *Act, st *State) Term { return a.load(st, lv) }, addCand, 0)
 	}
 	// user invariants from the contract
-	if a.contract != nil {
+	if a.contract != nil && !tr.noUserInv {
 		for _, ui := range a.contract.loopInvs[li.ord] {
 			ui := ui
+			if !tr.wantClause(ui) {
+				continue
+			}
 			li.invs = append(li.invs, &loopInv{text: ui.text, user: true, header: li.header, eval: func(a *Act, st *State) Term {
 				return a.evalSpecBool(st, ui.expr, li)
 			}})
@@ -182,7 +186,7 @@ func (a *Act) localCandidates(lv *LV, t types.Type, label string, get func(a *Ac
 		}
 		addCand(fmt.Sprintf("fresh-or-empty(%s)", label), func(a *Act, st *State) Term {
 			p := get(a, st)
-			return Or(tr.writable(app("s_arr", p)), Eq(app("s_cap", p), "0"))
+			return Or(tr.writableAt(st, app("s_arr", p)), Eq(app("s_cap", p), "0"))
 		})
 		addCand(fmt.Sprintf("wf(%s)", label), func(a *Act, st *State) Term { return tr.wfSlice(get(a, st)) })
 		addCand(fmt.Sprintf("allocated(%s)", label), func(a *Act, st *State) Term { return app("<=", app("s_arr", get(a, st)), st.alloc) })
@@ -363,7 +367,7 @@ func (a *Act) callMods(c *ssa.CallCommon, mods map[string]bool, seen map[*ssa.Fu
 			return false // unknown interface method outside the module: lisp heap untouched
 		}
 		if key := fieldOfValue(c.Value); key != "" {
-			if fc := tr.eng.contracts.fieldContract(key); fc != nil {
+			if fc := tr.eng.contracts.fieldContract(key); fc != nil && !tr.noContracts {
 				return fc.mods(tr, mods)
 			}
 		}
@@ -374,7 +378,7 @@ func (a *Act) callMods(c *ssa.CallCommon, mods map[string]bool, seen map[*ssa.Fu
 		tr.eng.stubMods(name, mods, tr)
 		return false
 	}
-	if fc := tr.eng.contracts.forFunc(callee); fc != nil && fc.modular() && fc.explicitFrame() {
+	if fc := tr.eng.contracts.forFunc(callee); fc != nil && fc.modular() && fc.explicitFrame() && !tr.noContracts {
 		return fc.mods(tr, mods)
 	}
 	inMod := callee.Pkg != nil && strings.HasPrefix(callee.Pkg.Pkg.Path(), modulePath) || callee.Parent() != nil || isInstantiation(callee)
